@@ -7,6 +7,8 @@ from spyne import Application, Service, rpc, ComplexModel
 from spyne.model.primitive import (Integer, Integer32, UnsignedInteger8, Decimal, Double, Boolean, Unicode,
                                    Date, DateTime, Time, Duration)
 from spyne.model.complex import Array
+from spyne.model.binary import ByteArray
+from spyne.model.enum import Enum
 from spyne.model.fault import Fault
 from spyne.protocol.xml import XmlDocument
 from spyne.protocol.json import JsonDocument
@@ -18,9 +20,16 @@ class Inner(ComplexModel):
     v = Integer
 
 
+Color = Enum('red', 'green', type_name='Color')
+
+
 class Holder(ComplexModel):
     __namespace__ = 'tns'
     n = Integer
+    blob = ByteArray
+    hexblob = ByteArray(encoding='hex')
+    color = Color
+    many = Integer(max_occurs='unbounded')
     d = Decimal
     s = Unicode
     flag = Boolean
@@ -45,6 +54,7 @@ CTX = fake_ctx(APP)
 XML = XmlDocument(app=APP, validator='soft')
 XML_NOVAL = XmlDocument(app=APP)
 JSON = JsonDocument(app=APP, validator='soft')
+JSON_NOVAL = JsonDocument(app=APP)
 HTTP = HttpRpc(app=APP, validator='soft')
 
 FREE = {  # free-form text: (type, alphabet, lengths)
@@ -57,6 +67,9 @@ FREE = {  # free-form text: (type, alphabet, lengths)
     'Boolean': (Boolean, 'truefalsTRUE01x ', (0, 1, 4, 5)),
     'Unicode': (Unicode, 'ab<&é ', (0, 1, 3)),
     'Duration': (Duration, '-PT0123456789.DHMSYx', (0, 1, 2, 3, 4, 5)),
+    'ByteArray': (ByteArray, 'Aa0+/=_- ', (0, 1, 2, 3, 4, 5)),
+    'ByteArray(hex)': (ByteArray(encoding='hex'), '0aFg ', (0, 1, 2, 3, 4)),
+    'Enum': (Color, 'redgn', (0, 1, 3, 5)),
 }
 SHAPED = {  # (type, template): 'd' = any digit, other characters literal or from a small set
     'Date': (Date, ['dddd-dd-dd', 'dddd-dd-ddZ', 'dddd-dd-dd+dd:dd', 'dddd-d-dd', 'dddd/dd/dd']),
@@ -64,7 +77,8 @@ SHAPED = {  # (type, template): 'd' = any digit, other characters literal or fro
                             'dddd-dd-ddTdd:dd:dd+dd:dd', 'dddd-dd-ddTdd:dd:dd-dd:dd', 'dddd-dd-dd dd:dd:dd',
                             'dddd-dd-ddTdd:dd']),
     'Time': (Time, ['dd:dd:dd', 'dd:dd:dd.dddddd', 'dd:dd:dd.ddddddd', 'dd:dd']),
-    'Duration': (Duration, ['PdDTdHdMd.dS', 'PTd.ddddddddS', '-PdYdMdD', 'PTdxdS', 'P']),
+    'Duration': (Duration, ['PdDTdHdMd.dS', 'PTd.ddddddddS', '-PdYdMdD', 'PTdxdS', 'P', 'PdddddddddddD', 'PddddddddddY',
+                            'PTddddddddddddH']),
 }
 
 
@@ -92,6 +106,8 @@ def _call(family, T, text, sx):
         return XML_NOVAL.from_element(CTX, T, mk_element(sx, '{tns}v', text=text))
     if family == 'json':
         return JSON._from_dict_value(CTX, 'k', T, text, JSON.validator)
+    if family == 'json-novalidate':
+        return JSON_NOVAL._from_dict_value(CTX, 'k', T, text, JSON_NOVAL.validator)
     if family == 'http':
         class _M(object):
             type = T
@@ -104,7 +120,7 @@ def _client_fault(e):
     return isinstance(code, str) and (code == 'Client' or code.startswith('Client.'))
 
 
-FAMILIES = ['xml', 'xml-novalidate', 'json', 'http']
+FAMILIES = ['xml', 'xml-novalidate', 'json', 'json-novalidate', 'http']
 LEAF_FUNCS = ['spyne.protocol._inbase.InProtocolBase.from_unicode', 'spyne.protocol.xml.XmlDocument.from_element',
               'spyne.protocol.dictdoc.hier.HierDictDocument._from_dict_value',
               'spyne.protocol.dictdoc.simple.SimpleDictDocument._to_native_values']
@@ -146,7 +162,7 @@ def leaf_shaped_text(sx, p):
     return True
 
 
-SLOTS = ['n', 'd', 's', 'flag', 'when', 'at', 't', 'dur', 'dbl', 'inner', 'arr', 'objs']
+SLOTS = ['n', 'd', 's', 'flag', 'when', 'at', 't', 'dur', 'dbl', 'inner', 'arr', 'objs', 'blob', 'color', 'many']
 KINDS = ['none', 'bool', 'int', 'float', 'str', 'list', 'dict']
 
 
@@ -158,7 +174,7 @@ def _kind_value(sx, kind):
     if kind == 'int':
         return sx.int('vi', -3, 300)
     if kind == 'float':
-        return 1.5
+        return sx.choose('vf', [1.5, 2.0, float('nan'), float('inf'), 1e300])
     if kind == 'str':
         n = sx.choose('slen', [0, 2])
         return sx.text('vs', n, alphabet='a1-') if n else ''
@@ -170,7 +186,7 @@ def _kind_value(sx, kind):
 @harness('C10', params=[(s, k) for s in SLOTS for k in KINDS], label=lambda p: 'slot=%s kind=%s' % p,
          functions=['spyne.protocol.dictdoc.hier.HierDictDocument._doc_to_object',
                     'spyne.protocol.dictdoc.hier.HierDictDocument._from_dict_value'],
-         bounds={'document': 'one member of a 12-member object carries a value of each JSON kind'})
+         bounds={'document': 'one member of a 15-member object (numbers, text, dates, binary, enumeration, nested object, arrays, repeated member) carries a value of each JSON kind, floats including NaN / infinity / 1e300'})
 def json_wrong_kinds(sx, p):
     """a member carrying the wrong JSON kind is refused with a Client fault (or coerced), never a crash"""
     slot, kind = p
